@@ -26,5 +26,5 @@ def one(d):
     print(sid, {c: (v["exit"], v["keys"][:2]) for c, v in out.items()}, flush=True)
 
 dirs = sorted(d for d in glob.glob(os.path.join(VERIF, "seeded", "C*_*")) if not only or os.path.basename(d) in only)
-with ThreadPoolExecutor(max_workers=2) as ex:
+with ThreadPoolExecutor(max_workers=3) as ex:
     list(ex.map(one, dirs))
